@@ -28,6 +28,8 @@ os.rmdir(wt)
 meta = {"id": sid, "breaks_property": a.prop, "source": "independent sub-agent given only the property text and a scratch worktree"}
 try:
     subprocess.check_call(["git", "-C", "/repo", "worktree", "add", "--detach", "-q", wt, "HEAD"])
+    for kit in ("cidar", "ytk", "ecoflex", "plant"):   # the embedded registry archives are build products
+        subprocess.run(["/venv/bin/python", "setup.py", "build_ext", "-i"], cwd=os.path.join(wt, "moclo-" + kit), stdout=subprocess.DEVNULL, stderr=subprocess.DEVNULL)
     run = lambda: subprocess.run(["/venv/bin/python", demo, wt], stdout=subprocess.PIPE, stderr=subprocess.STDOUT, timeout=600)
     p0 = run()
     meta["demo_on_unchanged_tree"] = {"exit": p0.returncode, "tail": p0.stdout.decode()[-300:]}
